@@ -4,8 +4,10 @@
    merge_bams inlined; which pipeline runs is the branch [ch id_ch_multiprocess].
    Quantifiers: [cnt] = number of iterations of every loop (molecules, fragments, worker results,
    temp files ...), [ch] = outcome of every run-time test, [f] = what happens to the i-th executed
-   step (works / raises before / raises half way; Exception or KeyboardInterrupt-like), so every crash
-   point and every sequence of faults is covered; [crash_at k] is the single fault of the statement. *)
+   step (works / raises before / raises half way, and with which exception class: RuntimeError,
+   ValueError, OSError, TimeoutError, MemoryError, another Exception, or a non-Exception such as
+   KeyboardInterrupt - the except clauses of the source decide per class), so every crash point and
+   every sequence of faults is covered; [crash_at e k] is the single fault of the statement. *)
 From Coq Require Import List Bool Arith.
 Import ListNotations.
 From SCMO Require Import Lib.StatusLang Gen.GenStatus Model.C20 Proofs.C20 Proofs.C20_inst.
@@ -20,9 +22,9 @@ Proof. exact never_ok_early. Qed.
 Print Assumptions C20_never_ok_early.
 
 (* the same in the words of the statement: n molecules, crash point k *)
-Theorem C20_never_ok_early_crash_at : forall cnt ch k w0 r s,
+Theorem C20_never_ok_early_crash_at : forall cnt ch e k w0 r s,
   invb w0 = true -> lost w0 = false ->
-  run_prog pipeline cnt ch (crash_at k) w0 = (r, s) ->
+  run_prog pipeline cnt ch (crash_at e k) w0 = (r, s) ->
   st (wd s) = SOk -> ex (wd s) = true /\ co (wd s) = true /\ so (wd s) = true /\ ix (wd s) = true.
 Proof. exact never_ok_early_crash_at. Qed.
 Print Assumptions C20_never_ok_early_crash_at.
@@ -46,15 +48,18 @@ Theorem C20_fail_not_ok : forall cnt ch f w0 r s,
 Proof. exact fail_not_ok. Qed.
 Print Assumptions C20_fail_not_ok.
 
-(* a worker of the multiprocess pipeline that returns has written a complete sorted indexed BAM *)
+(* a worker of the multiprocess pipeline that returns has written a complete sorted indexed BAM,
+   whatever failed inside it with whatever exception class other than TimeoutError (swallowed on
+   purpose by -max_time_per_segment) *)
 Theorem C20_worker_complete : forall cnt ch f w0 s,
+  no_timeout f ->
   lost w0 = false ->
   run_prog worker_body cnt ch f w0 = (RNormal, s) ->
   ex (wd s) = true /\ co (wd s) = true /\ so (wd s) = true /\ ix (wd s) = true.
 Proof. exact worker_complete. Qed.
 Print Assumptions C20_worker_complete.
 
-(* non-vacuity: standard runs of both pipelines and of a worker over 3 iterations of every loop complete; some crash point
+(* non-vacuity (and why TimeoutError is excluded for the worker): standard runs of both pipelines and of a worker over 3 iterations of every loop complete; some crash point
    among the first 200 steps of the single-process run over a previous successful output raises and
    does not leave the success marker *)
 Example C20_runs :
@@ -62,10 +67,11 @@ Example C20_runs :
    (r, st (wd s), all_four (wd s))) = (RNormal, SOk, true) /\
   (let '(r, s) := run_prog pipeline (fun _ => 3) (ch_of ch_true_multi) no_fault w_fresh in
    (r, st (wd s), all_four (wd s))) = (RNormal, SOk, true) /\
-  existsb (fun k => let '(r, s) := run_prog pipeline (fun _ => 3) (ch_of ch_true_single) (crash_at k) w_prev_ok in
-                    match r with RExc => negb (status_eqb (st (wd s)) SOk) | _ => false end) (seq 0 200) = true /\
+  existsb (fun k => let '(r, s) := run_prog pipeline (fun _ => 3) (ch_of ch_true_single) (crash_at KOS k) w_prev_ok in
+                    match r with RRaised KOS => negb (status_eqb (st (wd s)) SOk) | _ => false end) (seq 0 200) = true /\
   (let '(r, s) := run_prog worker_body (fun _ => 3) (ch_of ch_true_single) no_fault w_fresh in
    (r, all_four (wd s))) = (RNormal, true) /\
+  worker_timeout_loses_records ch_true_single = true /\
   ch_of ch_true_single id_ch_tempfiles = false /\
   invb w_prev_ok = true /\ invb w_fresh = true.
 Proof. vm_compute. repeat split. Qed.
